@@ -300,9 +300,15 @@ func Parse(filename string, src io.Reader) (*Grammar, error) {
 
 		// grammar → name decls
 		case 0:
+			// A grammar without any declaration has no list of declarations.
+			var decls []Decl
+			if rhs[1].Val != nil {
+				decls = rhs[1].Val.([]Decl)
+			}
+
 			return &Grammar{
 				Name:     rhs[0].Val.(string),
-				Decls:    rhs[1].Val.([]Decl),
+				Decls:    decls,
 				Position: rhs[0].Pos,
 			}, nil
 		}
